@@ -400,14 +400,14 @@ func runLongSMS(r *core.Run) {
 			m.req = []int{0, 8, 9, 15, 4, 1, 25, 255}[c.Pick(3, 3, 2, 3, 1, 1, 1, 1)]
 			if m.req == 255 {
 				// numbers outside one octet too, among them those whose low octet is a supported coding
-				m.req = []int{255, 256, 264, 265, 271, -1, -241, -248, -256, 1 << 16, 1<<32 + 8, 1<<40 + 15}[c.Intn(12)]
+				m.req = []int{255, 256, 264, 265, 271, -1, -241, -248, -256, 1 << 16, wideInt(32, 8), wideInt(40, 15)}[c.Intn(12)]
 			}
 			m.reqFam = cmppFamily(m.req)
 		case 1:
 			m.proto = "smpp"
 			m.req = []int{0, 99, 1, 3, 8, 2, 4, 255}[c.Pick(3, 4, 2, 2, 3, 1, 1, 1)]
 			if m.req == 255 {
-				m.req = []int{255, 256, 257, 259, 264, 355, -1, -157, -248, -256, 1<<32 + 8, 1<<40 + 3}[c.Intn(12)]
+				m.req = []int{255, 256, 257, 259, 264, 355, -1, -157, -248, -256, wideInt(32, 8), wideInt(40, 3)}[c.Intn(12)]
 			}
 			m.reqFam = smppFamily(m.req)
 		default:
